@@ -17,7 +17,7 @@ RULE = ('Hypothesis-generated file trees (<= 25 nodes, depth <= 4; names with bl
         'extensions incl. none and double ones, upper case, non-ASCII; empty directories; equal stems with '
         'different extensions; a directory whose name has an extension) materialised in a fresh temporary '
         'directory, 1-4 rules (top-level, nested, missing or regular-file paths; two factories; extra args / '
-        'kwargs; extension filters), nest_on_conflict and trim_extensions given at construction, per call or '
+        'kwargs; extension filters; the handles of one factory are falsy objects), nest_on_conflict and trim_extensions given at construction, per call or '
         'both, 1-3 population calls on the same map (empty or pre-populated), optional root override; between two '
         'calls a file may turn into a directory of the same name that holds files. Oracle: '
         'independent os.walk reference producing, per call, the list of (key, rule, file) productions; required '
@@ -30,7 +30,8 @@ ASSUMPTIONS = [
     'names beginning with "." are not generated (glob hides them by convention); rule directory names contain '
     'no glob metacharacters; rule directories "." / "" are not generated',
     'directory names and file stems are drawn from disjoint pools, so a trimmed file key never equals a sibling '
-    'directory key (the statement defines handle-vs-handle conflicts only)',
+    'directory key (the statement defines handle-vs-handle conflicts only); likewise a file only turns into a '
+    'directory between two calls when no sibling file trims to its name',
     'which of several same-key files of ONE call ends up on top is a file-system (listing order) matter: any of '
     'the productions of the newest call is accepted as the visible handle',
     'case-sensitive local file system, no symlinks, no permission errors',
@@ -57,6 +58,9 @@ class RecHandle(desper.Handle):
 
 class RecHandle2(RecHandle):
     factory = 1
+
+    def __len__(self):
+        return 0            # handles of this factory are falsy objects (like a handle over an empty file)
 
 
 FACTORIES = [RecHandle, RecHandle2]
@@ -224,8 +228,14 @@ def _run(case, tmp, facts):
         facts['calls'] += 1
         check(rmap, rules, productions, allowed_dirs, nest_modes, pre_handle, facts)
         morph = (case.get('morph') or [1, 1])[min(ci, 1)]
-        if morph % 3 == 0 and files and ci + 1 < len(case['calls']):
-            f = files.pop(morph % len(files))
+        # a file may turn into a directory of the same name - but only one whose name is not the trimmed key of a
+        # sibling file (handle-vs-directory conflicts are not defined by the statement, see ASSUMPTIONS)
+        eligible = [f for f in files
+                    if not any(s != f and pt.dirname(s) == pt.dirname(f)
+                               and pt.splitext(pt.basename(s))[0] == pt.basename(f) for s in files)]
+        if morph % 3 == 0 and eligible and ci + 1 < len(case['calls']):
+            f = eligible[morph % len(eligible)]
+            files.remove(f)
             os.remove(f)
             os.mkdir(f)
             for inner in ('a.txt', 'b'):
